@@ -310,7 +310,19 @@ def c_make_table_line(it, e, path):
     """width = (count + 1) * W(sep) + total   (from the row language, count >= 1)"""
     if len(e.args) != 2:
         return None
-    cells = it.ev(e.args[0], path)
+    a0 = e.args[0]
+    if isinstance(a0, ast.List) and a0.elts and not any(isinstance(x, ast.Starred) for x in a0.elts):
+        # a literal list of cells, each a chunk list of known width
+        vals = [it.ev(x, path) for x in a0.elts]
+        if all(isinstance(v, CL) for v in vals):
+            tot = Lin.const(0)
+            for v in vals:
+                tot = tot + v.n
+            cells = Cells(Lin.const(len(vals)), tot)
+        else:
+            cells = None
+    else:
+        cells = it.ev(a0, path)
     sep = it.ev(e.args[1], path)
     if isinstance(cells, Cells) and isinstance(sep, Chunk) and sep.n.is_const():
         return CL((cells.c + Lin.const(1)).scale(sep.n.c()) + cells.w, fresh=True)
@@ -644,11 +656,24 @@ def _skipped_formula(gen, formula):
         return False      # counts over something else than exactly the shown lines
     v = var.id
 
-    def is_rec(t):      # T
-        return isinstance(t, ast.UnaryOp) and isinstance(t.op, ast.Not) and norm(t.operand) == f"isinstance({v}, self._ServiceLine)"
+    cls_ = getattr(gen, "_parent", None)
+    while cls_ is not None and not isinstance(cls_, ast.ClassDef):
+        cls_ = getattr(cls_, "_parent", None)
 
     def is_service(t):
-        return norm(t) == f"isinstance({v}, self._ServiceLine)"
+        if norm(t) == f"isinstance({v}, self._ServiceLine)":
+            return True
+        # a predicate method of the class:  def h(self, x): return isinstance(x, self._ServiceLine)
+        if isinstance(t, ast.Call) and isinstance(t.func, ast.Attribute) and is_name(t.func.value, "self") and len(t.args) == 1 and is_name(t.args[0], v) and cls_ is not None:
+            h = next((m for m in cls_.body if isinstance(m, FUNC) and m.name == t.func.attr), None)
+            if h is not None:
+                body = [b for b in h.body if not (isinstance(b, ast.Expr) and isinstance(b.value, ast.Constant))]
+                ps = [a.arg for a in h.args.args]
+                return len(body) == 1 and isinstance(body[0], ast.Return) and len(ps) == 2 and norm(body[0].value) == f"isinstance({ps[1]}, self._ServiceLine)"
+        return False
+
+    def is_rec(t):      # T
+        return isinstance(t, ast.UnaryOp) and isinstance(t.op, ast.Not) and is_service(t.operand)
     e = g.elt
     if isinstance(e, ast.Call) and call_name(e) in ("int", "bool") and len(e.args) == 1:
         e = e.args[0]
